@@ -195,6 +195,7 @@ func ruleIndexContracts(r *Run) {
 	// ---- Q8, Q9
 	r.footprintThenCells(fns)
 	r.pointConversionsVerbatim(fns)
+	r.cellShrinksByWhatWasFound(fns)
 }
 
 // writesCells: the function assigns a grid cell itself or through a helper of the package it calls.
@@ -1344,6 +1345,70 @@ func (r *Run) sampleForwarded() {
 				"%s returns on this path without asking the index (%s): what it hands back is not the current content of the shared ground-plane index (a remembered answer goes stale when planes are merged in place)", fn.Name, queried.Name())
 		}
 	}
+	// … and one level up: a handler that answers from such a function (state.region, state.groundPlane) calls it
+	// on every path on which it sends its success answer — a remembered answer is not the index
+	askers := map[*types.Func]bool{}
+	for _, fn := range r.dagazFuncs() {
+		if fn.Obj == nil {
+			continue
+		}
+		info := fn.Info()
+		ast.Inspect(fn.Body, func(nd ast.Node) bool {
+			if v, ok := nd.(*ast.CallExpr); ok {
+				if f, ok := calleeObjRaw(info, v).(*types.Func); ok && f.Pkg() != nil && f.Pkg().Path() == pkgDagaz {
+					if sig := f.Type().(*types.Signature); sig.Recv() != nil {
+						if iface, isIface := sig.Recv().Type().Underlying().(*types.Interface); isIface && r.gridImplements(iface) && sig.Results().Len() > 0 {
+							askers[fn.Obj] = true
+						}
+					}
+				}
+			}
+			return true
+		})
+	}
+	for _, fn := range r.dagazFuncs() {
+		if fn.Obj == nil || askers[fn.Obj] {
+			continue
+		}
+		var asked *types.Func
+		ast.Inspect(fn.Body, func(nd ast.Node) bool {
+			if v, ok := nd.(*ast.CallExpr); ok {
+				if f, ok := calleeObjRaw(fn.Info(), v).(*types.Func); ok && askers[f] {
+					asked = f
+				}
+			}
+			return true
+		})
+		if asked == nil {
+			continue
+		}
+		paths := r.Paths(fn)
+		for pi := range paths {
+			path := &paths[pi]
+			r.at(path)
+			called := false
+			for _, ev := range path.Events {
+				if ev.Kind != EvCall || ev.Call == nil {
+					continue
+				}
+				if f, ok := ev.Callee.(*types.Func); ok {
+					if askers[f] {
+						called = true
+						continue
+					}
+					if f.Name() == "Send" && len(ev.Call.Args) >= 1 {
+						if ml := r.msgLiteral(ev.Fn, ev.Call.Args[0]); ml != nil && ml.TypeC != nil {
+							if cls := ml.TypeConstName(); strings.HasSuffix(cls, "_RESPONSE") && cls != "MSG_TYPE_ERROR_RESPONSE" {
+								n++
+								r.CheckT("Q4", fn.Name+":answer-from-the-index["+asked.Name()+"]", called, ev.Pos, path,
+									"%s sends %s on this path without having asked the index (through %s): the answer is something remembered, which goes stale when another participant's sample is applied", fn.Name, cls, asked.Name())
+							}
+						}
+					}
+				}
+			}
+		}
+	}
 	// the sample handler hands the whole converted list to the state on its accepting paths
 	if h := r.P.FuncByName("modules/dagaz.(*Module).HandleDagazQuadSample"); h != nil {
 		paths := r.Paths(h)
@@ -1484,4 +1549,88 @@ func (r *Run) pairedSlots(fns []*Func) {
 		})
 	}
 	r.Floor("Q5", "paired slots filled from a paired source", n, 6)
+}
+
+// cellShrinksByWhatWasFound (Q11): a statement that shortens a cell's list (stores a re-slice of the cell into the
+// cell) is reached only through a test of what a search of that very cell returned — the plane was found there.
+// Shortening a cell on the strength of "the caller only asks for cells that hold it" drops whichever plane sits
+// at the default position when the belief is wrong (a merge that shrinks on one axis while it grows on the other
+// visits cells the plane was never registered in).
+func (r *Run) cellShrinksByWhatWasFound(fns []*Func) {
+	n := 0
+	for _, fn := range fns {
+		shrinks := false
+		ast.Inspect(fn.Body, func(nd ast.Node) bool {
+			if as, ok := nd.(*ast.AssignStmt); ok && len(as.Lhs) == 1 && len(as.Rhs) == 1 && gridCell(as.Lhs[0]) == 2 {
+				if _, isSlice := ast.Unparen(as.Rhs[0]).(*ast.SliceExpr); isSlice {
+					shrinks = true
+				}
+			}
+			return true
+		})
+		if !shrinks {
+			continue
+		}
+		info := fn.Info()
+		paths := r.capPaths(fn, r.Paths(fn), 20000)
+		for pi := range paths {
+			path := &paths[pi]
+			r.at(path)
+			searched := map[types.Object]bool{} // results of calls that were handed a cell
+			tested := false
+			for _, ev := range path.Events {
+				if ev.Fn == nil || ev.Fn.root().origOrSelf() != fn {
+					continue
+				}
+				switch ev.Kind {
+				case EvAssign:
+					if len(ev.Rhs) == 1 {
+						if call, ok := ast.Unparen(ev.Rhs[0]).(*ast.CallExpr); ok {
+							cellArg := false
+							for _, a := range call.Args {
+								if gridCell(a) == 2 {
+									cellArg = true
+								}
+							}
+							if cellArg {
+								for _, l := range ev.Lhs {
+									if id, ok := ast.Unparen(l).(*ast.Ident); ok {
+										if o := objOf(info, id); o != nil {
+											searched[o] = true
+										}
+									}
+								}
+							}
+						}
+					}
+					if len(ev.Lhs) == 1 && len(ev.Rhs) == 1 && gridCell(ev.Lhs[0]) == 2 {
+						if _, isSlice := ast.Unparen(ev.Rhs[0]).(*ast.SliceExpr); isSlice {
+							n++
+							r.CheckT("Q11", fn.Name+":cell-shrinks-by-what-was-found", tested, ev.Pos, path,
+								"%s shortens a cell's list on a path that never tested what the search of that cell returned: when the plane is not registered there, another plane is dropped from the cell (or the index is out of range)", fn.Name)
+						}
+					}
+				case EvGuard:
+					if ev.Cond != nil && ev.GKind != GRange {
+						ast.Inspect(ev.Cond, func(k ast.Node) bool {
+							if id, ok := k.(*ast.Ident); ok && searched[info.Uses[id]] {
+								tested = true
+							}
+							// a direct comparison of a cell element with the plane (a hand-written search loop)
+							if be, ok := k.(*ast.BinaryExpr); ok && (be.Op == token.EQL || be.Op == token.NEQ) {
+								if ix, ok := ast.Unparen(be.X).(*ast.IndexExpr); ok && gridCell(ix.X) == 2 {
+									tested = true
+								}
+								if ix, ok := ast.Unparen(be.Y).(*ast.IndexExpr); ok && gridCell(ix.X) == 2 {
+									tested = true
+								}
+							}
+							return true
+						})
+					}
+				}
+			}
+		}
+	}
+	r.Floor("Q11", "cell-shortening statements on paths", n, 1)
 }
